@@ -526,6 +526,28 @@ fn mutate(src: &str, stride: usize, mut f: impl FnMut(&str, String)) {
         }
         f("trunc", src[..p].to_string());
     }
+    // LONG insertions: a run of k characters followed by a multi-byte one, placed after every separator of the
+    // encoding (field values, type names, list elements).  Code that cuts, pads or echoes a rejected value at a
+    // fixed byte offset (16, 32, 64, 128, 256 ...) meets a character boundary problem only with such inputs.
+    let seps: Vec<usize> = idx.iter().filter(|(_, c)| matches!(c, '=' | ':' | ';' | ',' | '[' | '"' | '|')).map(|(p, c)| p + c.len_utf8()).collect();
+    for (n, &at) in std::iter::once(&0usize).chain(seps.iter()).enumerate() {
+        if n % stride.max(1) != 0 && n > 8 {
+            continue;
+        }
+        for base in [16usize, 32, 64, 128, 256] {
+            for d in 0..4 {
+                let k = base - d;
+                for mb in ["\u{e9}", "\u{20ac}", "\u{1f600}"] {
+                    let fill = if n % 2 == 0 { "9" } else { "A" };
+                    f("long", format!("{}{}{}{}", &src[..at], fill.repeat(k), mb, &src[at..]));
+                }
+            }
+        }
+    }
+    // very long plain runs
+    for &at in seps.iter().take(6) {
+        f("long", format!("{}{}{}", &src[..at], "7".repeat(5000), &src[at..]));
+    }
 }
 
 pub fn run(sc: &Value) -> Vec<String> {
